@@ -39,8 +39,9 @@ func (obj Symbol) Readably(b []byte, p *Printer) []byte {
 		return append(b, p.caseName(string(obj))...)
 	}
 	needPipe := numberLike(string(obj))
-	for _, c := range []byte(obj) {
-		if needPipeMap[c] == 'x' {
+	for i, c := range []byte(obj) {
+		// A leading & as in &optional is read as part of a symbol.
+		if needPipeMap[c] == 'x' && (c != '&' || 0 < i) {
 			needPipe = true
 			break
 		}
